@@ -164,6 +164,41 @@ def check_C04(run):
     return V.finish("C04", run.tier, run.seed, "model_checking", cov, rejected, out, run.t0, TRUSTED + ["harness/schema2go.go (schema -> projected Go target types)"])
 
 
+def check_C13(run):
+    run.model("MC_Wire", "MC_Wire_quick")
+    run.model("MC_Time", "MC_Time_big_quick")
+    run.model("MC_Time", "MC_Time_units_quick")
+    out, meta = run.drive("C13")
+    total, rejected, states, _ = V.judge(run.scratch, "Trace_Codec", out)
+    cov = std_cov(run, meta, total, states,
+                  "one event per (record type, caller schema, value): every (Go field type x admissible caller schema) pair of a 21 x up-to-11 table (null first/second, int/long x int16/int32/int64/int, float/double x float32/float64, "
+                  "fixed, date/timestamp-millis/-micros/plain long/string x time.Time, null.* under each primitive) alone, in an array, a map and a nested record, plus seeded random records of 1-5 such fields; keys are field class|schema|position")
+    return V.finish("C13", run.tier, run.seed, "model_checking", cov, rejected, out, run.t0, TRUSTED)
+
+
+def check_C19(run):
+    run.model("MC_Time", "MC_Time_big_quick")
+    run.model("MC_Time", "MC_Time_units_quick")
+    out, meta = run.drive("C19")
+    total, rejected, states, _ = V.judge(run.scratch, "Trace_Codec", out)
+    cov = std_cov(run, meta, total, states,
+                  "read: stored integers (boundaries, a stride over all int32 day counts, random longs over the int64-nanosecond-representable range) decoded under date / timestamp-millis / timestamp-micros / plain long; "
+                  "write: times that are exact multiples of the unit and arbitrary instants, before and after 1970; keys are direction|logical type|magnitude class")
+    return V.finish("C19", run.tier, run.seed, "model_checking", cov, rejected, out, run.t0, TRUSTED + ["Go's time.Time accessors (Unix, Date, Clock, Zone) in the projection"])
+
+
+def check_C18(run):
+    run.model("MC_Time", "MC_Time_parse_thorough" if run.thorough() else "MC_Time_parse_quick")
+    out, meta = run.drive("C18")
+    total, rejected, states, _ = V.judge(run.scratch, "Trace_Codec", out)
+    cov = std_cov(run, meta, total, states,
+                  "grammar-directed grid (years 0000..9999, month/day/hour boundaries, fraction lengths 0,1,3,6,9,10,12, '.' and ',', Z and +-hh:mm up to 23:59, date-only), "
+                  "format/parse identity on seeded random times, random valid strings with random fraction lengths, and ~1,000 damaged strings (no-panic clause); "
+                  "through StringCodec.Read directly, a time.Time record field and a null.Time field; keys are family|fraction length|entry")
+    return V.finish("C18", run.tier, run.seed, "model_checking", cov, rejected, out, run.t0,
+                    TRUSTED + ["time.Parse is logged for every string and must agree with the TLA+ reference (disagreement = exit 2)"])
+
+
 CHECKS = {k[6:]: v for k, v in list(globals().items()) if k.startswith("check_C")}
 
 
